@@ -18,7 +18,8 @@ META = {
     "level_text": "Exhaustive within bounds on the model: one transfer of 1..4 packages (package size 1 or 3, last package "
                   "1..size) with every single fault (drop of any item, duplicate of any sent package at any later point, swap of "
                   "neighbours, resize to every other length) and one unrelated message anywhere; two interleaved transfers of 1..2 "
-                  "packages, all interleavings, one fault in total (thorough: one fault per transfer, and 1..3 packages). Every "
+                  "packages, all interleavings, one fault in total (thorough: one fault per transfer, and 1..3 packages); one transfer "
+                  "with a single fault plus one additional duplicate of any package that was on the wire. Every "
                   "such behaviour is executed on the real plugin; zero drift is required for the fast path.",
     "level_note": "Narrower readings: with a LOST announcement only the safety half is required (observation #16: lost FLST + "
                   "shorter last package ends Incomplete); auto-save is only required to stay inside the configured directory "
@@ -87,6 +88,8 @@ def binding_selftest(ctx, cases, v, kf):
         t = copy.deepcopy(cases[au]); e = next(e for e in t if e["ev"] == "tree"); e["pre_ok"] = False
         muts.append(("pre-existing file overwritten", t))
     if len(muts) < 6:
+        if ctx.violations:      # the code under test is broken so badly that no suitable accepted case exists: the verdict stands
+            return {"skipped": "not enough accepted cases to corrupt (run has violations)"}
         raise c.ToolError("binding self-test: not enough accepted cases to corrupt")
     path = ctx.path("selftest.ndjson")
     with open(path, "w") as f:
@@ -113,7 +116,9 @@ def check(ctx):
     if os.environ.get("VERIF_KF_OFF"):      # self-test only: strict contract (validates the proposed fix / the KF's narrowness)
         kf = {k: False for k in kf}
     # (a)+(b) model checking (invariants incl. the cross-check contract classification == sender fault classes) and emission
-    cfgs = ["FileTransfer_single_emit.cfg", "FileTransfer_pair_emit.cfg"]
+    # dupalso: one duplicate of a package that was on the wire IN ADDITION to the single fault (safety must still hold; this is
+    # what exposes regressions of the package-number logic that the file-size check masks under a single fault)
+    cfgs = ["FileTransfer_single_emit.cfg", "FileTransfer_dupalso_emit.cfg", "FileTransfer_pair_emit.cfg"]
     if not quick:
         cfgs += ["FileTransfer_pair2_emit.cfg", "FileTransfer_pair3_emit.cfg"]
     scns = []
@@ -200,7 +205,8 @@ def check(ctx):
             "with_unrelated_message", "last_package_shorter", "package_size_1", "file_of_one_package", "cfg_allow_save+auto_save",
             "cfg_auto_save_only", "rnd_interleaved_transfers", "rnd_dup", "rnd_swap", "rnd_resize", "rnd_foreign_apid_copy"]
     missing = [k for k in need if not info["paths"].get(k)] + [k for k, n in fired.items() if n == 0]
-    if missing:
+    ctx.extra["paths_never_exercised"] = missing
+    if missing and not ctx.violations:      # (with violations the code may be too broken to reach a path: the verdict stands)
         raise c.ToolError("vacuity: paths never exercised: %s" % missing)
     ks = list(cases)
     for k in ks[:1] + ks[len(ks) // 2:len(ks) // 2 + 1] + ks[-1:]:
